@@ -99,24 +99,41 @@ func checkLowering(c *Ctx) {
 	for k, v := range repoCommandConfig().AutoVarCommands {
 		cc.AutoVarCommands[k] = v
 	}
-	var nd NDJSON
+	var all []map[string]interface{}
 	srcOf := map[string]string{}
 	ncases := 0
+	const batch = 6000 // scripts per TLC run (a run of 16 000 takes 2.5 min; the thorough family is several times that)
+	batchData := func(from int) []byte {
+		var nd NDJSON
+		to := from + batch
+		if to > len(all) {
+			to = len(all)
+		}
+		for _, r := range all[from:to] {
+			nd.Add(r)
+		}
+		return nd.Bytes()
+	}
 	flush := func() (map[string]bool, int64, bool) {
-		if d := os.Getenv("LOWERING_DUMP"); d != "" {
-			os.WriteFile(d, nd.Bytes(), 0o644)
-		}
-		res, err := RunTLC("lowering", TLCJob{Module: "LoweringConform", Cfg: "LoweringConform.cfg", Data: map[string][]byte{"lowering.ndjson": nd.Bytes()},
-			Workers: c.Workers, Timeout: 30 * time.Minute, HeapGB: 12})
-		if err != nil || !res.Clean() {
-			c.Fatal("LoweringConform run failed: %v\n%s", err, tail(res.Output, 4000))
-			return nil, 0, false
-		}
 		bad := map[string]bool{}
-		for _, m := range reCaseFlag.FindAllStringSubmatch(res.Output, -1) {
-			bad[m[3]] = true
+		var states int64
+		for from := 0; from < len(all); from += batch {
+			data := batchData(from)
+			if d := os.Getenv("LOWERING_DUMP"); d != "" && from == 0 {
+				os.WriteFile(d, data, 0o644)
+			}
+			res, err := RunTLC("lowering", TLCJob{Module: "LoweringConform", Cfg: "LoweringConform.cfg", Data: map[string][]byte{"lowering.ndjson": data},
+				Workers: c.Workers, Timeout: 30 * time.Minute, HeapGB: 12})
+			if err != nil || !res.Clean() {
+				c.Fatal("LoweringConform run failed: %v\n%s", err, tail(res.Output, 4000))
+				return nil, 0, false
+			}
+			for _, m := range reCaseFlag.FindAllStringSubmatch(res.Output, -1) {
+				bad[m[3]] = true
+			}
+			states += res.Distinct
 		}
-		return bad, res.Distinct, true
+		return bad, states, true
 	}
 	for i, src := range srcs {
 		prog, p, globs, err := astProg(src, cc)
@@ -183,7 +200,7 @@ func checkLowering(c *Ctx) {
 						}
 					}
 				})
-				nd.Add(map[string]interface{}{"id": id, "N": flat.N, "E": flat.E, "ulab": flat.ULab, "sroot": flat.SRoot, "name": s.Name, "root": flat.SRoot[s.Name],
+				all = append(all, map[string]interface{}{"id": id, "N": flat.N, "E": flat.E, "ulab": flat.ULab, "sroot": flat.SRoot, "name": s.Name, "root": flat.SRoot[s.Name],
 					"glob": globs[si], "opt": opt, "lines": lines, "selfcontained": self})
 				ncases++
 			}
@@ -194,21 +211,25 @@ func checkLowering(c *Ctx) {
 		return
 	}
 	// design level: the model's own output, explored against the reference semantics of the same tables
-	rres, rerr := RunTLC("loweringrefine", TLCJob{Module: "LoweringRefine", Cfg: "LoweringRefine.cfg", Data: map[string][]byte{"lowering.ndjson": nd.Bytes()},
-		Workers: c.Workers, Timeout: 40 * time.Minute, HeapGB: 12})
-	if rerr != nil || !rres.Clean() {
-		c.Fatal("LoweringRefine run failed: %v\n%s", rerr, tail(rres.Output, 4000))
-		return
-	}
 	nref := 0
-	for _, m := range reDiverged.FindAllStringSubmatch(rres.Output, -1) {
-		nref++
-		if nref <= 5 {
-			fmt.Printf("DESIGN the Lowering model's output does not refine PoryLang: %s\n%s\n", m[3], srcOf[m[3]])
+	var refStates int64
+	for from := 0; from < len(all); from += batch {
+		rres, rerr := RunTLC("loweringrefine", TLCJob{Module: "LoweringRefine", Cfg: "LoweringRefine.cfg", Data: map[string][]byte{"lowering.ndjson": batchData(from)},
+			Workers: c.Workers, Timeout: 40 * time.Minute, HeapGB: 12})
+		if rerr != nil || !rres.Clean() {
+			c.Fatal("LoweringRefine run failed: %v\n%s", rerr, tail(rres.Output, 4000))
+			return
 		}
+		for _, m := range reDiverged.FindAllStringSubmatch(rres.Output, -1) {
+			nref++
+			if nref <= 5 {
+				fmt.Printf("DESIGN the Lowering model's output does not refine PoryLang: %s\n%s\n", m[3], srcOf[m[3]])
+			}
+		}
+		refStates += rres.Distinct
 	}
-	fmt.Printf("lowering-refine: %d product states explored over the model's own outputs, %d divergences\n", rres.Distinct, nref)
-	c.Cov("lowering_refine_states", rres.Distinct)
+	fmt.Printf("lowering-refine: %d product states explored over the model's own outputs, %d divergences\n", refStates, nref)
+	c.Cov("lowering_refine_states", refStates)
 	if nref > 0 {
 		c.Fatal("the Lowering model's output does not refine the reference semantics on %d scripts", nref)
 	}
